@@ -54,7 +54,7 @@ def run(ctx):
     # samples the two scenario functions natively, the thorough tier runs the CBMC harnesses
     import kani
     if ctx.tier == "thorough":
-        res_ = kani.run_many(["k_dec_string_small", "k_string_pack_small"], cap_s=900)
+        res_ = kani.run_many(["k_dec_string_small", "k_string_pack_small"], cap_s=1800)
         kani.settle(ctx, res_, lambda h: h[2:].replace("_small", "") if "pack" in h else h[2:])
     else:
         for scen in ("dec_string_small", "string_pack"):
